@@ -54,7 +54,19 @@ Section Derived.
   Definition getZ (l : list T) (i : Z) : T :=
     match nthZ l i with Some x => x | None => nan_ end.
 
+  Fixpoint seqZ (a : Z) (n : nat) : list Z :=
+    match n with 0%nat => [] | S n' => a :: seqZ (a + 1) n' end.
+  Definition rangeZ (a b : Z) : list Z := seqZ a (Z.to_nat (b - a)).
   Definition sum_list (l : list T) : T := fold_left add l (ofZ 0).
+  (** np.clip(v, lo, hi) = minimum(maximum(v, lo), hi); NaN propagates *)
+  Definition clip_ (v lo hi : T) : T :=
+    if isnan_ v then v else
+    let v1 := if ltb_ v lo then lo else v in if ltb_ hi v1 then hi else v1.
+  (** indices (i, j) of the non-zero entries of a 2-D table in row-major order (np.argwhere(c != 0)) *)
+  Definition nonzero_idx (c : list (list T)) : list (Z * Z) :=
+    flat_map (fun '(i, row) =>
+      flat_map (fun '(j, v) => if eqb_ v (ofZ 0) then [] else [(i, j)]) (combine (seqZ 0 (length row)) row))
+      (combine (seqZ 0 (length c)) c).
   Definition getLZ (l : list (list T)) (i : Z) : list T :=
     match nthZ l i with Some x => x | None => [] end.
   Definition get2Z (l : list (list T)) (i j : Z) : T := getZ (getLZ l i) j.
@@ -70,9 +82,6 @@ Section Derived.
     let j := if (i <? 0)%Z then (n + i)%Z else i in
     if orb (j <? 0)%Z (n <=? j)%Z then l else set_nth l (Z.to_nat j) x.
 
-  Fixpoint seqZ (a : Z) (n : nat) : list Z :=
-    match n with 0%nat => [] | S n' => a :: seqZ (a + 1) n' end.
-  Definition rangeZ (a b : Z) : list Z := seqZ a (Z.to_nat (b - a)).
   Definition enumZ {A} (l : list A) : list (Z * A) := combine (seqZ 0 (length l)) l.
   (** Python slice l[lo:hi] with non-negative lo; hi = None means to the end, negative hi counts from the end *)
   Definition sliceZ {A} (l : list A) (lo : Z) (hi : option Z) : list A :=
